@@ -13,9 +13,10 @@ two are put together, call by call, as the C code does it:
     first; `flush_row_group` returns before any bookkeeping, so the row group stays current with
     its columns finalised (pages flushed), `file_offset`, `num_row_groups`, `total_rows`
     unchanged — later batches go on into it, the next `new_row_group`/`close` finalises and
-    writes it again; `carquet_row_group_writer_finalize` adds the chunk sizes to the row-group
-    writer's `total_byte_size` on every call, so a row group written at the second attempt
-    records the sum of both attempts there (`carry`);
+    writes it again; `carquet_row_group_writer_finalize` starts the row-group writer's
+    `total_byte_size` from 0 on every call (fix F23; before, a row group written at the second
+    attempt recorded the sum of both attempts there — the model had a `carry` field for it), so a
+    retried finalisation records exactly what a first one would;
   * `close` consults the sticky error indicator after its `fflush` (fixes F17, F42) and frees
     the writer on every path.
 
@@ -50,9 +51,6 @@ structure SW (ε : Type) where
   s : Stream := {}
   e : ε
   w : W
-  /-- `total_byte_size` the current row-group writer has accumulated in finalisations whose
-  write failed (row_group_writer.c: `writer->total_byte_size += col_size` on every finalize) -/
-  carry : Nat := 0
   /-- ghost: the outcomes of all stream operations so far -/
   log : List Outcome := []
 
@@ -92,11 +90,10 @@ def flushedCols (D : Deps) (w : W) : List Col → List ColW → List ColW
     | some cw' => cw' :: flushedCols D w cs cws
   | _, cws => cws
 
-/-- the writer state after the bookkeeping of `flush_row_group` (everything below its `fwrite`);
-`carry` is what earlier, failed finalisations of this row group left in `total_byte_size` -/
-def commitRowGroup (D : Deps) (w : W) (cws : List ColW) (bytes : Bytes) (metas : List ChunkMeta) (carry : Nat) : W :=
+/-- the writer state after the bookkeeping of `flush_row_group` (everything below its `fwrite`) -/
+def commitRowGroup (D : Deps) (w : W) (cws : List ColW) (bytes : Bytes) (metas : List ChunkMeta) : W :=
   { w with out := if bytes.length > 0 then w.out ++ [bytes] else w.out,
-           rowGroups := w.rowGroups ++ [{ numRows := w.rgRows, totalByteSize := carry + bytes.length,
+           rowGroups := w.rowGroups ++ [{ numRows := w.rgRows, totalByteSize := chunksUncompressed metas,
                                           fileOffset := w.fileOffset, totalCompressed := bytes.length,
                                           ordinal := w.rowGroups.length, chunks := metas }],
            fileOffset := w.fileOffset + bytes.length,
@@ -114,11 +111,10 @@ def flushRowGroupS (D : Deps) (E : Env ε) (x : SW ε) : SW ε × Status :=
     | some (bytes, metas) =>
       if bytes.length > 0 then
         if (swrite E x bytes).2 then
-          ({ (swrite E x bytes).1 with w := commitRowGroup D x.w cws bytes metas x.carry, carry := 0 }, .ok)
+          ({ (swrite E x bytes).1 with w := commitRowGroup D x.w cws bytes metas }, .ok)
         else
-          ({ (swrite E x bytes).1 with w := { x.w with rg := some (flushedCols D x.w x.w.cols cws) },
-                                       carry := x.carry + bytes.length }, .fileWrite)
-      else ({ x with w := commitRowGroup D x.w cws bytes metas x.carry, carry := 0 }, .ok)
+          ({ (swrite E x bytes).1 with w := { x.w with rg := some (flushedCols D x.w x.w.cols cws) } }, .fileWrite)
+      else ({ x with w := commitRowGroup D x.w cws bytes metas }, .ok)
 
 /-- `carquet_writer_write_batch`: the column index is checked first, then the header; nothing
 else touches the stream -/
